@@ -114,6 +114,17 @@ Section PackProofs.
     unpack_instr C lam_norm t bs = VSome v.
   Proof. intros Ht Hw E. unfold Pack.unpack_instr. rewrite (unpack_pack t v bs Ht Hw E). reflexivity. Qed.
 
+  (* distinct values of a type never share their packed form (big_map keys, signed payloads) *)
+  Lemma pack_injective t v1 v2 bs :
+    has_type t v1 = true -> has_type t v2 = true ->
+    wf_node (to_mich Optimized v1) -> wf_node (to_mich Optimized v2) ->
+    pack t v1 = Ok bs -> pack t v2 = Ok bs -> v1 = v2.
+  Proof.
+    intros H1 H2 W1 W2 E1 E2.
+    pose proof (unpack_pack t v1 bs H1 W1 E1) as U1. pose proof (unpack_pack t v2 bs H2 W2 E2) as U2.
+    congruence.
+  Qed.
+
   (* ---------------------------------------------------------------- what unpack accepts *)
 
   Lemma unpack_iff t bs v :
